@@ -464,7 +464,11 @@ func (sv *Solver) solve(q string, order []string) SolveResult {
 }
 
 func solverOrder(q string) []string {
-	if strings.Contains(q, "str.indexof") || strings.Contains(q, "str.replace") {
+	// only the asserted part counts (the prelude always mentions str.indexof)
+	if i := strings.Index(q, "(assert "); i >= 0 {
+		q = q[i:]
+	}
+	if strings.Contains(q, "str.indexof") || strings.Contains(q, "(Index ") || strings.Contains(q, "(spHasSub ") || strings.Contains(q, "str.replace") {
 		return []string{"cvc5", "z3-new", "z3"}
 	}
 	return []string{"z3-new", "cvc5", "z3"}
